@@ -1,0 +1,32 @@
+//go:build verif
+
+// Contracts for package snappy (comment-only; compiled only with the build tag "verif",
+// read by /verif/engine). Property C18 (pooled compressor state).
+
+package snappy
+
+//@ import s2 "github.com/klauspost/compress/s2"
+//@ import sync "sync"
+//@ import io "io"
+
+// typestate of the pooled third-party (de)compressor: `busy` from Reset until Close (writer) / EOF (reader).
+// An object may be handed back to the pool only when it is not busy - otherwise another call could
+// Get and Reset it while this one is still flushing through it.
+//@ ghostfield any.busy Bool
+//@ func s2.(*Writer).Close
+//@   assumed
+//@   params w
+//@   ensures !w.busy
+//@   modifies w.busy
+// (s2.(*Reader).Read: contract in replication/snapshot's contract file, incl. the busy typestate)
+
+// Close: the writer goes back to the pool only after the underlying compressor has been closed
+//@ func (*writer).Close
+//@   requires z != nil && z.Writer != nil && z.pool != nil
+//@   before sync.(*Pool).Put assert [C18.pool.writer] !z.Writer.busy
+//@   modifies z.Writer.busy
+// Read: the reader goes back to the pool only at end of stream
+//@ func (*reader).Read
+//@   requires z != nil && z.Reader != nil && z.pool != nil
+//@   before sync.(*Pool).Put assert [C18.pool.reader] !z.Reader.busy
+//@   modifies z.Reader.busy, z.Reader.rest, elems(p)
